@@ -359,4 +359,6 @@ def run(tier):
     chk.floor('obligations', len(chk.obls), 18)
     from .. import lints
     lints.length_is_boolean(chk, ['src/aead/'])
+    from .. import lints as _lints_ir
+    _lints_ir.ignored_result_regression(chk, ['src/aead/'])
     return chk.finish()
